@@ -11,9 +11,12 @@ of `ExtR` at the protocol boundary), the proofs at a linearly ordered field.  Th
 floating-point operations is the order of the Python expressions, so that `Float` results are
 bit-identical to numpy's.
 
-The model follows the code *after* the repair `tools/fixes/C12-beyond-R1-key.diff`
-(the segment `(1, inf]` gets the sort key `-inf` instead of `-1`; see `segKey`).  The only inputs on
-which this differs from the unrepaired code are: target `R = -inf`, cycle with `R > 1`.
+The model follows the code *after* the repairs `tools/fixes/C12-beyond-R1-key.diff`
+(the segment `(1, inf]` gets the sort key `-inf` instead of `-1`; see `segKey`; committed),
+`tools/fixes/C12-signed-zero-upper.diff` (`load_collective.R`: an upper load `-0.0` counts as `+0.0`; see `cycR`),
+`tools/fixes/C12-matrix-index-layout.diff` (the matrix accessor pairs transformed ranges and counts by label for
+every order of the index levels; see `matrixTransform`) and `tools/fixes/C12-goodman-default-M2-keeps-operand.diff`
+(`M2 = M/3` without writing into the caller's parameter frame; value unchanged, see `goodmanDefault`).
 -/
 import Model.Num
 
@@ -179,10 +182,72 @@ where fillna0' (t : α) : α := if t ≤ t then t else -1.0
 def goodman (M M2 : α) : List (Seg α) :=
   [⟨fin 1.0, pinf, 0.0⟩, ⟨ninf, fin 0.0, M⟩, ⟨fin 0.0, fin 1.0, M2⟩]
 
+/-- `HaighDiagram.fkm_goodman` for a parameter set without `M2`: `M2 = M / 3.0`. -/
+def goodmanDefault (M : α) : List (Seg α) := goodman M (M / 3.0)
+
 /-- `HaighDiagram.five_segment`. -/
 def fiveSegment (M0 M1 M2 M3 M4 R12 R23 : α) : List (Seg α) :=
   [⟨fin 1.0, pinf, M4⟩, ⟨ninf, fin 0.0, M0⟩, ⟨fin 0.0, fin R12, M1⟩, ⟨fin R12, fin R23, M2⟩,
    ⟨fin R23, fin 1.0, M3⟩]
+
+/-! ### Frames: the cycle `(amplitude, R)` of a row, and the row of a cycle
+
+`ext` classifies a carrier value as `HaighDiagram.transform` sees it in a float column (`Float`: IEEE infinities
+and NaN go to the constructors of `ExtR`; `ℝ`: `ExtR.fin`). -/
+
+/-- The three ways a cycle is handed over: DataFrame with `range`/`mean`, DataFrame with `from`/`to`, histogram
+(class mid of the range resp. `|from - to|` of the class mids, class mid of the mean). -/
+inductive Iface where
+  | rm
+  | ft
+  | h
+  deriving Repr, DecidableEq
+
+/-- `x != x` -/
+def isNaN (x : α) : Bool := !(decide (x ≤ x))
+
+/-- `load_collective.R = (lower / (upper + 0.0)).fillna(0.0)` (after `tools/fixes/C12-signed-zero-upper.diff`: an upper
+load of either signed zero is `+0.0`): division by zero spelled out, so that it means the same at every carrier. -/
+def cycR (ext : α → ExtR α) (lower upper : α) : ExtR α :=
+  if upper ≤ 0.0 ∧ 0.0 ≤ upper then
+    if lower < 0.0 then ninf else if 0.0 < lower then pinf else fin 0.0
+  else match ext (lower / upper) with
+    | nan => fin 0.0
+    | r => r
+
+/-- `np.abs(a - b)` (for `a`, `b` not NaN). -/
+def absDiff (a b : α) : α := if a < b then b - a else a - b
+
+/-- The cycle `(amplitude, R)` as the accessors of `load_collective.py` / `load_histogram.py` compute it. -/
+def mkCycle (ext : α → ExtR α) (kind : Iface) (x y : α) : Cyc α :=
+  match kind with
+  | .h =>
+    let amp := x / 2.0
+    ⟨amp, cycR ext (y - amp) (y + amp)⟩
+  | k =>
+    let ft : α × α := if k = .rm then (y - x / 2.0, y + x / 2.0) else (x, y)
+    let fr := ft.1
+    let to := ft.2
+    -- DataFrame.max/min(axis=1) skip NaN
+    let upper := if isNaN fr then to else if isNaN to then fr else if fr < to then to else fr
+    let lower := if isNaN fr then to else if isNaN to then fr else if fr < to then fr else to
+    ⟨absDiff fr to / 2.0, cycR ext lower upper⟩
+
+/-- The row (`range`, `mean`) of the result frame for a transformed cycle. -/
+def rowOf (c : Cyc α) : α × α := (2.0 * c.amp, resultMean c)
+
+/-- One pass of `HaighDiagram.transform` on a row; the result row is (`range`, `mean`). -/
+def transformFrame (ext : α → ExtR α) (D : List (Seg α)) (g : ExtR α) (kind : Iface) (xy : α × α) : α × α :=
+  rowOf (transform D g (mkCycle ext kind xy.1 xy.2))
+
+/-- Successive transforms `hd.transform(hd.transform(frame, g₁), g₂) …`: every result frame is a `range`/`mean` frame. -/
+def transformChain (ext : α → ExtR α) (D : List (Seg α)) (kind : Iface) (goals : List (ExtR α)) (xy : α × α) : α × α :=
+  match goals with
+  | [] => xy
+  | g :: gs => gs.foldl (fun r g => transformFrame ext D g .rm r) (transformFrame ext D g kind xy)
+
+/-- `res.load_collective.amplitude` of a (`range`, `mean`) row. -/
+def frameAmp (xy : α × α) : α := absDiff (xy.2 - xy.1 / 2.0) (xy.2 + xy.1 / 2.0) / 2.0
 
 /-! ### Matrix interface: re-binning of the transformed ranges -/
 
@@ -199,5 +264,34 @@ def classSum (l r : α) (items : List (α × α)) : α :=
 def rebin : List α → List (α × α) → List α
   | l :: r :: es, items => classSum l r items :: rebin (r :: es) items
   | _, _ => []
+
+/-- One class of a rainflow matrix as `series.meanstress_transform.fkm_goodman` sees it: the key of the remaining index
+levels (`node`), the Haigh diagram of that key, class mids (`x` = range, `y` = mean) and the number of cycles. -/
+structure Cell (α : Type) where
+  node : Nat
+  D : List (Seg α)
+  x : α
+  y : α
+  count : α
+
+/-- (transformed range, count) of every class. -/
+def matItems (ext : α → ExtR α) (g : ExtR α) (cells : List (Cell α)) : List (α × α) :=
+  cells.map fun c => ((transformFrame ext c.D g .h (c.x, c.y)).1, c.count)
+
+/-- `ranges.max()` -/
+def maxRange (items : List (α × α)) : α :=
+  items.foldl (fun m it => if m < it.1 then it.1 else m) (items.headD (0.0, 0.0)).1
+
+/-- `resulting_intervals`: `bincount = int(np.ceil(ranges_max / binsize))` (`ceilNat`), breaks `np.linspace(0, ranges_max, bincount+1)`;
+one set of breaks for all keys of the remaining levels. -/
+def matBreaks [NatCast α] (ext : α → ExtR α) (ceilNat : α → Nat) (g : ExtR α) (binsize : α) (cells : List (Cell α)) : List α :=
+  let mx := maxRange (matItems ext g cells)
+  linspace0 mx (ceilNat (mx / binsize))
+
+/-- `MeanstressTransformMatrix.fkm_goodman` / `_rebin_results`: the class sums of the key `node`
+(`aggregate_on_projection`); a matrix without remaining levels has the single key `0`. -/
+def matrixTransform [NatCast α] (ext : α → ExtR α) (ceilNat : α → Nat) (g : ExtR α) (binsize : α) (cells : List (Cell α))
+    (node : Nat) : List α :=
+  rebin (matBreaks ext ceilNat g binsize cells) (matItems ext g (cells.filter fun c => c.node == node))
 
 end PylifeVerif.Meanstress
